@@ -41,7 +41,7 @@ theorem c16_retry_resends (g : Gw) (t : Tx) (q : UInt8) (st : BpSt) (p : Pkt) (s
                         timer := some (g.now + g.cfg.retryDelay) }).txs := by
   unfold retryExpire
   have hb' : ¬ (n + 1 > g.cfg.retryCount) := by omega
-  simp only [hk, hd, Bool.false_eq_true, if_false, hb']
+  simp only [hk, hd, Bool.false_eq_true, if_false, hb', hs, false_and]
   constructor
   · simp [snSend, hs, emit, setTx]
   · rw [snSend_txs_eq]
@@ -49,11 +49,20 @@ theorem c16_retry_resends (g : Gw) (t : Tx) (q : UInt8) (st : BpSt) (p : Pkt) (s
 
 /-- **C16.** Budget used up: nothing is sent, the transaction ends. -/
 theorem c16_retry_gives_up (g : Gw) (t : Tx) (q : UInt8) (st : BpSt) (data : BpData) (snp : Option Pkt) (n : Nat)
-    (hk : t.kind = .brokerPub q st data snp n) (hd : t.done = false) (hb : n + 1 > g.cfg.retryCount) :
+    (hk : t.kind = .brokerPub q st data snp n) (hd : t.done = false) (hb : n + 1 > g.cfg.retryCount)
+    (hs : ¬ (g.st = .asleep ∧ data.toClient = true)) :
     g.retryExpire t = g.finishTx t.id ∧ (g.retryExpire t).outs = g.outs := by
   unfold retryExpire
-  simp only [hk, hd, Bool.false_eq_true, if_false, hb, if_true]
+  simp only [hk, hd, Bool.false_eq_true, if_false, hb, if_true, hs]
   exact ⟨trivial, finishTx_outs g t.id⟩
+
+/-- **C16.** While the client sleeps, an exchange that waits for the client neither retransmits nor
+    uses up its retries: the timer is re-armed, nothing else changes (the packet waits in the queue). -/
+theorem c16_retry_suspended_while_asleep (g : Gw) (t : Tx) (q : UInt8) (st : BpSt) (p : Pkt) (snp : Option Pkt) (n : Nat)
+    (hk : t.kind = .brokerPub q st (.sn p) snp n) (hd : t.done = false) (hs : g.st = .asleep) :
+    g.retryExpire t = g.setTx { t with timer := some (g.now + g.cfg.retryDelay) } := by
+  unfold retryExpire
+  simp [hk, hd, hs, BpData.toClient]
 
 /-- **C16.** The client's PUBACK for a QoS-1 exchange awaiting it: one MQTT PUBACK, same ID. -/
 theorem c16_puback (g : Gw) (h : g.st = .active) (tid mid : UInt16) (t : Tx) (d : BpData) (snp : Option Pkt) (n : Nat)
